@@ -241,6 +241,29 @@ class AnsEv(HumanResponseEvent):
     response: str = ""
 
 
+_UID = [0]
+
+
+def _next_uid() -> str:
+    _UID[0] += 1
+    return "uid-%d" % _UID[0]
+
+
+class EvDefaults(Event):
+    """typed fields that callers usually do NOT pass: mutable defaults filled in place afterwards, a non-reproducible default_factory"""
+
+    tags: List[str] = Field(default_factory=list)
+    meta: Dict[str, Any] = Field(default_factory=dict)
+    inner: Inner = Field(default_factory=Inner)
+    n: int = 7
+    uid: str = Field(default_factory=_next_uid)
+
+
+class StopDefaults(StopEvent):
+    tags: List[str] = Field(default_factory=list)
+    uid: str = Field(default_factory=_next_uid)
+
+
 EV_PLAIN, EV_TYPED, EV_STOP, EV_STOPSUB, EV_ASK, EV_START = 0, 1, 2, 3, 4, 5
 EVENT_CLASSES: List[type] = [EvPlain, EvTyped, StopEvent, StopSub, AskEv, StartEvent]
 
